@@ -69,6 +69,17 @@ def run(case):
         o = attempt(lambda: np.asarray(ba[np.array(pos, dtype=np.int64)].unpack()).tolist())
         if not o.ok or o.value != e:
             return "packed[array(%s)].unpack() gives %s, expected %s" % (pos, repr(o) if not o.ok else short(o.value, 120), short(e, 120))
+        # "returns a packed array of those elements": it must answer like any packed array (element access, windows)
+        w2 = min(w, len(e))
+        if w2 >= 1:
+            ew = [sum(e[i + j] << (b * j) for j in range(w2)) for i in range(len(e) - w2 + 1)]
+            o = attempt(lambda: [int(x) for x in np.asarray(ba[list(pos)].sliding_window(w2)).tolist()])
+            if not o.ok or o.value != ew:
+                return "packed[%s].sliding_window(%d) gives %s, expected %s" % (short(pos, 80), w2, repr(o) if not o.ok else short(o.value, 100), short(ew, 100))
+            k = len(e) // 2
+            o = attempt(lambda: int(ba[list(pos)][k]))
+            if not o.ok or o.value != e[k]:
+                return "packed[%s][%d] gives %s, expected %d" % (short(pos, 80), k, repr(o) if not o.ok else o.value, e[k])
 
     def obs_w():
         CTX.tick("c13:window", w > 1)
@@ -118,6 +129,11 @@ def gen_case(rng, b, L, w=None, style=None, dtype=None):
     w = w or rng.randint(1, min(per, L))
     w = min(w, L, per)
     pos = [rng.randrange(L) for _ in range(rng.randint(1, min(2 * per + 3, 40)))]
+    if rng.random() < 0.35 and L >= 2:
+        # a run of consecutive positions, often longer than one register and not starting on a register boundary
+        a = rng.randrange(L)
+        ln = rng.randint(1, min(L - a, 2 * per + 5))
+        pos = list(range(a, a + ln))
     order = "".join(rng.sample("uiwl", 4)) + rng.choice(["w", "u", "l", ""])
     c = mk_case(b, dtype, values(rng, b, L, style), w, pos, order)
     c["style"] = style
